@@ -66,6 +66,14 @@ func (d *Dir) Write(files map[string][]byte) error {
 		d.log.Infof("Written file %s", file)
 	}
 
+	// A previous process which died between the Symlink and Rename below leaves
+	// a stale <target>.new behind. Remove it (the link itself, never what it
+	// points to; a no-op when it does not exist), otherwise Symlink fails with
+	// EEXIST on every later Write.
+	if err := os.RemoveAll(d.target + ".new"); err != nil {
+		return err
+	}
+
 	if err := os.Symlink(newDir, d.target+".new"); err != nil {
 		return err
 	}
